@@ -103,8 +103,11 @@ RESULT_RE = re.compile(r'^Checking harness ([\w:]+)\.\.\.', re.M)
 
 def run(cdir, harnesses, jobs=8, timeout=3600, extra=None):
     """Runs cargo kani for the given harness names; returns dict name -> {status, time, checks, failed:[...], log}."""
+    jpath = os.path.join(cdir, 'kani_results.json')
+    if os.path.exists(jpath):
+        os.remove(jpath)
     cmd = ['cargo', 'kani', '-Z', 'function-contracts', '-Z', 'stubbing', '-Z', 'unstable-options',
-           '--output-format', 'terse', '-j', str(jobs)]
+           '--output-format', 'terse', '--export-json', jpath, '-j', str(jobs)]
     for h in harnesses:
         cmd += ['--harness', h]
     if extra:
@@ -123,21 +126,28 @@ def run(cdir, harnesses, jobs=8, timeout=3600, extra=None):
         timed_out = True
     wall = time.time() - t0
     res = {}
-    # split per harness
-    parts = re.split(r'(?m)^Checking harness ', out)
-    for part in parts[1:]:
-        name = part.split('...', 1)[0].strip()
-        short = name.split('::')[-1]
-        status = 'unknown'
-        m = re.search(r'VERIFICATION:-\s*(\w+)', part)
-        if m:
-            status = m.group(1)
-        failed = re.findall(r'(?m)^Failed Checks: (.*)$', part)
-        tm = re.search(r'Verification Time: ([\d.]+)s', part)
-        checks = re.search(r'\*\* (\d+) of (\d+) failed', part)
-        res[short] = {'full_name': name, 'status': status, 'failed_checks': failed,
-                      'time_s': float(tm.group(1)) if tm else None,
-                      'n_checks': int(checks.group(2)) if checks else None,
-                      'log': part[-3000:]}
-    return {'cmd': ' '.join(cmd), 'rc': rc, 'wall_s': wall, 'timed_out': timed_out, 'harnesses': res,
-            'tail': out[-4000:]}
+    try:
+        d = json.load(open(jpath))
+    except Exception:
+        d = None
+    if d:
+        for r in d.get('verification_results', {}).get('results', []):
+            short = r['harness_id'].split('::')[-1]
+            bad = [c for c in r.get('checks', []) if c.get('status') not in ('Success', 'Unreachable', 'Satisfied', 'Covered')]
+            bad.sort(key=lambda c: 0 if c.get('status') in ('Failure', 'Failed') else 1)
+            n_und = len([c for c in bad if c.get('status') not in ('Failure', 'Failed')])
+            failed = ['%s [%s] %s:%s in %s' % (c.get('description'), c.get('status'), (c.get('location') or {}).get('file'),
+                                               (c.get('location') or {}).get('line'), c.get('function'))
+                      for c in bad if c.get('status') in ('Failure', 'Failed')]
+            if n_und:
+                failed.append('(+ %d checks undetermined because of the failures above)' % n_und)
+            st = {'Success': 'SUCCESSFUL', 'Failure': 'FAILED', 'Failed': 'FAILED'}.get(r.get('status'), str(r.get('status')))
+            res[short] = {'full_name': r['harness_id'], 'status': st, 'failed_checks': failed[:20],
+                          'time_s': (r.get('duration_ms') or 0) / 1000.0, 'n_checks': len(r.get('checks', [])),
+                          'log': '\n'.join(failed[:40])}
+        tools = d.get('tools', {})
+    else:
+        tools = {}
+    out = re.sub(r'(?m)^Thread \d+: ?', '', out)
+    return {'cmd': ' '.join(c for c in cmd if c != jpath).replace('--export-json ', ''), 'rc': rc, 'wall_s': wall,
+            'timed_out': timed_out, 'harnesses': res, 'tail': out[-6000:], 'tools': tools}
